@@ -24,9 +24,10 @@ ExpectCert(e, h) == LET o == Owner(e, h) IN IF o = "" \/ ObjOf(e, o).tls = "none
 
 \* C10: every host resolves to the cluster whose latest object claims it (case-insensitively, port ignored), and to nothing otherwise;
 \*      the TLS material selected for the host is that cluster's
-NamesOK(e) ==
-  /\ \A h \in DOMAIN e.resolve : e.resolve[h] = Owner(e, h)
-  /\ \A h \in DOMAIN e.tls : e.tls[h].cert = ExpectCert(e, h) /\ e.tls[h].ca = ExpectCert(e, h) /\ e.tls[h].verify = (ExpectCert(e, h) # "")
+NamesOKOn(e, H) ==
+  /\ \A h \in DOMAIN e.resolve \cap H : e.resolve[h] = Owner(e, h)
+  /\ \A h \in DOMAIN e.tls \cap H : e.tls[h].cert = ExpectCert(e, h) /\ e.tls[h].ca = ExpectCert(e, h) /\ e.tls[h].verify = (ExpectCert(e, h) # "")
+NamesOK(e) == NamesOKOn(e, DOMAIN e.resolve \cup DOMAIN e.tls)
 \* C11: the effective configuration of every cluster is that of a fresh gateway given only the latest objects
 StaleVersion(e, c) == "StaleRequeue" \in Deviations /\ "fresh_versions" \in DOMAIN e /\ e.eff[c] \in Rng(e.fresh_versions[c]) /\ e.eff[c].names # e.fresh[c].names
 \* ... server names included: the name TABLE (what every host resolves to) is the fresh gateway's; a difference on host h is explained by the
@@ -45,10 +46,37 @@ Min(S) == CHOOSE x \in S : \A y \in S : x <= y
 OwnerAt(S, pick(_), h) == IF S = {} THEN "" ELSE Owner(T.events[pick(S)], h)
 MidOK(i) == LET e == T.events[i] IN
             ObsAfter(i) # {} => \A h \in DOMAIN e.resolve : e.resolve[h] \in {OwnerAt(ObsBefore(i), Max, h), OwnerAt(ObsAfter(i), Min, h)}
-Accept == /\ Ev.k = "obs" => ((T.judgeNames => NamesOK(Ev)) /\ (T.judgeReload => ReloadOK(Ev)))
-          /\ (Ev.k = "mid" /\ T.judgeNames) => MidOK(l)
+\* C10 with COLLIDING objects (T.collide: no admission in front of the gateway; each observation carries ever[c]: the names cluster c has
+\* claimed in any version since it was last created).  Which of two colliding claims wins is not prescribed, but:
+\*   - a name resolves only to a cluster that exists and has claimed it (the names of a deleted cluster stop resolving);
+\*   - the incumbent keeps a name it served at the observation before and still claims (no capture);
+\*   - once the latest objects do not collide any more and the gateway has settled, every name resolves as the latest objects say
+Present(e, c) == ~e.latest[c].absent
+CollisionFree(e) == \A c, d \in DOMAIN e.latest : (c # d /\ T.base[c] # T.base[d] /\ Present(e, c) /\ Present(e, d)) => Claims(e, c) \cap Claims(e, d) = {}
+\* known finding StaleRequeue (a version that was refused on a name conflict is retried later and applied OVER the cluster's latest object): a
+\* cluster is serving exactly the names of an EARLIER version of itself (e.vers[c]: the name sets of its versions since it was created); only the
+\* names such a cluster serves or should serve are excused
+Served(e, c) == {T.base[h] : h \in {x \in DOMAIN e.resolve : e.resolve[x] = T.base[c]}}
+StaleServing(e, c) == Present(e, c) /\ Served(e, c) # Claims(e, c) /\ \E k \in DOMAIN e.vers[c] : Rng(e.vers[c][k]) = Served(e, c)
+StaleHosts(e) == IF "StaleRequeue" \notin Deviations THEN {}
+                 ELSE {h \in DOMAIN e.resolve \cup DOMAIN e.tls : \E c \in DOMAIN e.latest : StaleServing(e, c) /\
+                             \/ T.base[h] \in Served(e, c) \/ Owner(e, h) = T.base[c]
+                             \* ... or of a cluster that is refused because it claims one of the names held by the stale version
+                             \/ \E d \in DOMAIN e.latest : Owner(e, h) = T.base[d] /\ Claims(e, d) \cap Served(e, c) # {}}
+CollideOK(i) ==
+  LET e == T.events[i] IN
+  /\ \A h \in DOMAIN e.resolve :
+        /\ e.resolve[h] # "" => \E c \in DOMAIN e.latest : T.base[c] = e.resolve[h] /\ Present(e, c) /\ T.base[h] \in Rng(e.ever[c])
+        /\ ObsBefore(i) # {} =>
+              LET p == T.events[Max(ObsBefore(i))] IN
+              \A c \in DOMAIN e.latest \cap DOMAIN p.latest :
+                 (Present(e, c) /\ Present(p, c) /\ T.base[h] \in Claims(e, c) /\ T.base[h] \in Claims(p, c) /\ p.resolve[h] = T.base[c]) => (e.resolve[h] = T.base[c] \/ h \in StaleHosts(e))
+  /\ (e.settled /\ CollisionFree(e)) => NamesOKOn(e, (DOMAIN e.resolve \cup DOMAIN e.tls) \ StaleHosts(e))
+Accept == /\ (Ev.k = "obs" /\ ~T.collide) => ((T.judgeNames => NamesOK(Ev)) /\ (T.judgeReload => ReloadOK(Ev)))
+          /\ (Ev.k = "obs" /\ T.collide) => CollideOK(l)
+          /\ (Ev.k = "mid" /\ T.judgeNames /\ ~T.collide) => MidOK(l)
 Next == l <= Len(T.events) /\ Accept /\ l' = l + 1 /\ tr' = tr
 Spec == Init /\ [][Next]_vars
-Why == IF Ev.k = "mid" THEN "mid" ELSE IF T.judgeNames /\ ~NamesOK(Ev) THEN "names" ELSE "reload"
+Why == IF Ev.k = "mid" THEN "mid" ELSE IF T.collide THEN "collide" ELSE IF T.judgeNames /\ ~NamesOK(Ev) THEN "names" ELSE "reload"
 Judge == (l <= Len(T.events) /\ ~Accept) => PrintT(<<"REJECT", T.id, l, Why>>)
 =============================================================================
